@@ -38,6 +38,8 @@ def _work_items(tier):
         items.append(("trso_wy", g))
     for g in enum_O(3, max_edges=3 if tier == "thorough" else 2):
         items.append(("trso_k2", g))
+    for g in enum_O(4, max_edges=5):
+        items.append(("trso_wy2", g))
     for g in [g for n in (1, 2, 3) for g in (enum_L(n) if tier == "thorough" else enum_O(n))]:
         items.append(("idstar", g))
         items.append(("idcstar", g))
@@ -46,7 +48,7 @@ def _work_items(tier):
 
 def shards(tier):
     items = _work_items(tier)
-    weight = {"id": 1, "idc": 2, "trso": 6, "trso_wy": 3, "trso_k2": 40, "idstar": 8, "idcstar": 8}
+    weight = {"id": 1, "idc": 2, "trso": 6, "trso_wy": 3, "trso_k2": 40, "trso_wy2": 3, "idstar": 8, "idcstar": 8}
     idx = sorted(range(len(items)), key=lambda i: -weight[items[i][0]] * len(items[i][1].nodes))
     size = 4
     return [tuple(idx[i : i + size]) for i in range(0, len(idx), size)]
@@ -57,8 +59,8 @@ def describe(tier):
         "bound": "ID: L(1..3) + O(4"
         + ("" if tier == "thorough" else ", <=4 edges")
         + ") all (X,Y); IDC: L(2..3) + O(4, few edges) all (X,Y,Z); TRSO: graphs up to 3 nodes with up to one source domain (all "
-        "(Z,W) specs), two source domains (all ordered pairs of specs) on sparse three-node graphs, four-node slice with W = Y and one "
-        "experiment node; ID*: events of up to two items; IDC*: one outcome "
+        "(Z,W) specs), two source domains (all ordered pairs of specs) on sparse three-node graphs, four-node slices with W = Y (one experiment node; two domains experimenting on "
+        "two of the target interventions); ID*: events of up to two items; IDC*: one outcome "
         "and one condition item",
         "rule": "state = (algorithm, graph, query); transition = one algorithm call whose returned expression tree is walked "
         "term by term against the vocabulary rules",
@@ -185,13 +187,15 @@ def run_item(res: Res, kind, g: G):
                 res.outcomes["idc_none"] += 1
             elif check_observational(res, est, g, case, "idc"):
                 res.outcomes["idc_ok"] += 1
-    elif kind in ("trso", "trso_wy", "trso_k2"):
+    elif kind in ("trso", "trso_wy", "trso_k2", "trso_wy2"):
         specs = domain_specs(g.nodes)
         for x, y in disjoint_pairs(g.nodes):
             if kind == "trso":
                 groups = [[]] + [[d] for d in specs]
             elif kind == "trso_k2":
                 groups = [list(p) for p in itt.product(specs, repeat=2)]
+            elif kind == "trso_wy2":
+                groups = [[((z1,), y), ((z2,), y)] for z1, z2 in itt.permutations(x, 2)]
             else:
                 groups = [[((z,), y)] for z in g.nodes if z not in y]
             for doms in groups:
@@ -262,5 +266,6 @@ def replay(case, clause=None):
     if kind == "trso":
         run_item(res, "trso_wy", g)
         run_item(res, "trso_k2", g)
+        run_item(res, "trso_wy2", g)
     keys = [k for k in ("X", "Y", "Z", "domains", "event", "outcomes", "conditions") if k in case]
     return [v for v in res.violations if all(v["input"].get(k) == case[k] for k in keys)]
